@@ -48,7 +48,7 @@ pub fn run_meta<T: Model>(ctx: &mut Ctx) {
 }
 
 fn values<T: Model>(ctx: &mut Ctx) -> Vec<T> {
-    let n = if ctx.thorough { 200 } else { 24 };
+    let n = if ctx.thorough { 200 } else { 14 };
     let mut vs = Vec::new();
     for i in 0..n {
         let size = if i < 4 { i } else { 1 + ctx.rng.below(4) };
@@ -137,7 +137,7 @@ fn bucket(n: usize) -> &'static str {
 pub fn mutations(rng: &mut Rng, e: &[u8], thorough: bool) -> Vec<Vec<u8>> {
     let mut out: Vec<Vec<u8>> = Vec::new();
     let n = e.len();
-    let cap = if thorough { 96 } else { 40 };
+    let cap = if thorough { 96 } else { 28 };
     // truncations
     if n <= cap {
         for k in 0..n {
